@@ -34,8 +34,12 @@ class LoopMixin(object):
             if it[0] == "const" and isinstance(it[1], tuple):
                 it = ("tuple", tuple(("const", x) for x in it[1]))
             if it[0] == "tuple" and 0 < len(it[1]) <= 8 and all(is_const(x) for x in it[1]) \
+                    and not all(isinstance(x[1], int) and not isinstance(x[1], bool)
+                                for x in it[1]) \
                     and not any(isinstance(n, (ast.Break, ast.Continue))
                                 for n in ast.walk(node)):
+                # (a tuple of plain numbers -- sizes, say -- stays an ordinary loop
+                # over its elements; unrolling serves names and SQL fragments)
                 return self.unroll(node, s, frame, it[1])
             if it[0] == "tuple" and 0 < len(it[1]) <= 6 and \
                     all(x[0] == "tuple" and x[1] and is_const(x[1][0]) and
